@@ -145,6 +145,9 @@ func runCheck(prop, tier string) int {
 		fmt.Fprintln(os.Stderr, "MACHINERY-ERROR: cannot write evidence:", err)
 		return 2
 	}
+	if out.Unrepro > 0 {
+		fmt.Fprintf(os.Stderr, "note: %d reported step(s) did not fail again when re-executed from a fresh store; they are not reported (see evidence: unreproduced)\n", out.Unrepro)
+	}
 	if len(out.Drift) > 0 {
 		fmt.Fprintf(os.Stderr, "note: model drift (observed steps that are not steps of the as-is spec): %v\n", out.Drift)
 	}
